@@ -313,10 +313,15 @@ let sd_case (f : string array) : string =
          | [] -> out := "r=none" :: !out)
       end
       else if op = "d" then begin ignore (dostep Model.ServerDrop); eager () end
+      else if op = "k" then ()
+      else if op = "n" then out := "thr=ok" :: !out
+      else if op.[0] = 'y' then
+        (* only the first configured address is ever bound: the second one refuses, before and after the drop *)
+        out := (Printf.sprintf "y%s=refused" (arg ())) :: !out
       else if op = "l" then
         out := (Printf.sprintf "l=%s" (if !s.Model.listening then "listening" else "closed")) :: !out
       else if op = "p" then
-        out := (Printf.sprintf "p=%s" (if kind = "t" then "na" else if !s.Model.path_removed then "gone" else "there")) :: !out
+        out := (Printf.sprintf "p=%s" (if kind = "t" || kind = "2" || kind = "m" then "na" else if !s.Model.path_removed then "gone" else "there")) :: !out
       else if op = "a" then begin
         out := (Printf.sprintf "a=%s" (if !held = [] then "-" else
                                          String.concat "," (List.map (fun c -> Printf.sprintf "%d:200" c) !held))) :: !out;
